@@ -2,6 +2,7 @@ package io
 
 import (
 	"bytes"
+	zerr "github.com/DemoHn/Zn/pkg/error"
 	"io"
 )
 
@@ -22,9 +23,13 @@ func NewByteStream(b []byte) *ByteStream {
 }
 
 func (b *ByteStream) ReadAll() ([]rune, error) {
-	data, _, err := readRune(b.reader, b.encBuffer, b.length)
+	data, remains, err := readRune(b.reader, b.encBuffer, b.length)
 	if err != nil {
 		return []rune{}, err
+	}
+	// all bytes have been read: a dangling incomplete character is an error
+	if len(remains) > 0 {
+		return []rune{}, zerr.InvalidUTF8Encoding(" <buffer> ")
 	}
 	return data, nil
 }
